@@ -253,6 +253,13 @@ static int pick(int include_me)
                     A[cs[k]].stalled_until = 0;
                 return cs[xs(&g_sched_rng) % (uint64_t)ns];
             }
+            /* until then the pollers go on polling: (virtual) time must not leap to the next
+             * deadline just because the only actor with real work is being held back */
+            int best = ci[0];
+            for (int k = 1; k < ni; k++)
+                if (idle_of(ci[k]) < idle_of(best))
+                    best = ci[k];
+            return best;
         }
         /* everybody runnable is polling (or nobody is runnable): let time pass */
         int64_t d = min_deadline();
